@@ -1,0 +1,70 @@
+//go:build verif
+
+package vaxis
+
+import (
+	"image"
+	"image/color"
+)
+
+// Verification hooks for property C20 (images: fit, aspect, pixels, placement bookkeeping).
+// Add-only and read-only; compiled only with -tags verif.
+
+// VerifResizeImage calls the real resizeImage.
+func VerifResizeImage(img image.Image, w, h, cellW, cellH int) image.Image {
+	return resizeImage(img, w, h, cellW, cellH)
+}
+
+// verifDimImage is an image that only has bounds (every pixel is transparent).
+type verifDimImage struct{ r image.Rectangle }
+
+func (d verifDimImage) ColorModel() color.Model { return color.RGBAModel }
+func (d verifDimImage) Bounds() image.Rectangle { return d.r }
+func (d verifDimImage) At(x, y int) color.Color { return color.RGBA{} }
+
+// VerifResizeDims runs the real resizeImage on a bounds-only image of wPix x hPix pixels and
+// returns the pixel size of the result.
+func VerifResizeDims(wPix, hPix, w, h, cellW, cellH int) (int, int) {
+	out := resizeImage(verifDimImage{image.Rect(0, 0, wPix, hPix)}, w, h, cellW, cellH)
+	m := out.Bounds().Max
+	return m.X, m.Y
+}
+
+// VerifToRGB calls the real toRGB.
+func VerifToRGB(c color.Color) (uint8, uint8, uint8, uint8) { return toRGB(c) }
+
+// VerifAverageColor calls the real averageColor.
+func VerifAverageColor(c color.Color, colors ...color.Color) (uint8, uint8, uint8, uint8) {
+	return averageColor(c, colors...)
+}
+
+// VerifPlacements returns a snapshot (id, col, row, w, h) of the next and last placement lists
+// and the refresh flag.
+func (vx *Vaxis) VerifPlacements() (next, last [][5]int, refresh bool) {
+	vx.mu.Lock()
+	defer vx.mu.Unlock()
+	snap := func(ps []*placement) [][5]int {
+		out := make([][5]int, 0, len(ps))
+		for _, p := range ps {
+			out = append(out, [5]int{int(p.id), p.col, p.row, p.w, p.h})
+		}
+		return out
+	}
+	return snap(vx.graphicsNext), snap(vx.graphicsLast), vx.refresh
+}
+
+// VerifC20CellAt returns the cell of the next screen at (col,row); ok is false outside the screen.
+func (vx *Vaxis) VerifC20CellAt(col, row int) (c Cell, ok bool) {
+	vx.mu.Lock()
+	defer vx.mu.Unlock()
+	if row < 0 || row >= len(vx.screenNext.buf) || col < 0 || col >= len(vx.screenNext.buf[row]) {
+		return Cell{}, false
+	}
+	return vx.screenNext.buf[row][col], true
+}
+
+// VerifC20SamePlacement calls the real samePlacement on two (id, col, row, w, h) tuples.
+func VerifC20SamePlacement(a, b [5]int) bool {
+	return samePlacement(&placement{id: uint64(a[0]), col: a[1], row: a[2], w: a[3], h: a[4]},
+		&placement{id: uint64(b[0]), col: b[1], row: b[2], w: b[3], h: b[4]})
+}
